@@ -22,6 +22,8 @@ use rand::{Rng, seq::IteratorRandom};
 pub use token_ring::TokenRing;
 #[cfg(feature = "scylla-verif")]
 pub(crate) use token_ring::verif_hooks as verif_token_ring;
+#[cfg(feature = "scylla-verif")]
+pub(crate) use replication_info::verif_hooks as verif_replication_info;
 
 use self::tablets::TabletsInfo;
 
